@@ -121,6 +121,8 @@ def eval_spec(spec, seen, objs):
         return spec[1]
     if k == "o":
         return objs[("o", spec[1])]
+    if k == "e":
+        return objs[("e", spec[1])]
     if k == "X":
         return objs[("X", spec[1])]
     if not has_node(spec):
